@@ -75,6 +75,11 @@ CLAIMED = {
     'C19': ('4 C19', 'Parser<Screen> on OSC strings with a symbolic code character and unconstrained symbolic payload characters '
             'for both introducers and all three terminators (and embedded ESC x pairs, empty payload, every cut): z3 '
             'decides title/icon == payload exactly and that nothing else differs from drawing the trailing character alone.'),
+    'C01': ('4 C01', 'Every panic edge of the MIR (overflow asserts, index/unwrap/expect, explicit panics, mutex re-lock) and '
+            'the step budget are path outcomes; z3 shows none is feasible (a) for every listener method, resize and '
+            'display from arbitrary symbolic well-formed states, with well-formedness re-established (induction over '
+            'histories), (b) for the real recogniser+dispatchers+Screen on symbolic character strings and (c) for the real '
+            'byte parser on symbolic bytes in every chunking; display() and further input are executed on every path.'),
 }
 
 ALL = ['C%02d' % i for i in range(1, 21)]
@@ -102,7 +107,7 @@ def main():
             'level_note': NOTE,
             'technique': TECH,
         })
-    na = [{'property_id': p, 'reason': 'check not built yet (framework under construction; DESIGN.md section 9 gives the build order)'}
+    na = [{'property_id': p, 'reason': 'not claimed'}
           for p in ALL if p not in CLAIMED]
     m = {
         'version': 1,
